@@ -13,7 +13,7 @@ fn main() {
     run.rule("every (radicand, precision, mode, sign) of each sub-domain through cbrt_with_context (+ cbrt() on a sub-grid) against the certified integer cube root of the magnitude (r^3 <= X < (r+1)^3 asserted, exactness, midpoint (2r+1)^3 vs 8X), Floor/Ceiling interpreted on the signed value; every distinct (radicand, p, mode) needs a rounding or exactness decision and counts as non-trivial; cases distinct by construction");
     run.assume("results are compared by value; the representation of the root is not constrained");
 
-    let nmax: usize = tier.pick(3000, 30000);
+    let nmax: usize = tier.pick(3000, 150_000);
     let pmax: u64 = tier.pick(8, 12);
     run.bound("S1_unscaled", format!("1..={} (both signs)", nmax));
     run.bound("S1_scales", "-6..=6");
